@@ -49,7 +49,8 @@ type binding struct {
 	ctx      context.Context
 	sub      *subgraph
 	factory  *graphql_datasource.Factory[graphql_datasource.Configuration]
-	resolver *resolve.Resolver
+	resolver *resolve.Resolver            // default options
+	optRes   map[string]*resolve.Resolver // per Shape.Opt
 	plans    map[Shape]*planned
 }
 
@@ -206,6 +207,19 @@ func stripPossibleTypes(resp *resolve.GraphQLResponse) *resolve.GraphQLResponse 
 	return &cp
 }
 
+func resolvableOptions(opt string) resolve.ResolvableOptions {
+	var o resolve.ResolvableOptions
+	for _, f := range strings.Split(opt, "+") {
+		switch f {
+		case "vc":
+			o.ApolloCompatibilityValueCompletionInExtensions = true
+		case "tf":
+			o.ApolloCompatibilityTruncateFloatValues = true
+		}
+	}
+	return o
+}
+
 // rendered is what one run of the renderer produced.
 type rendered struct {
 	Out       []byte
@@ -223,7 +237,7 @@ func (p *planned) render(payload []byte) (r rendered) {
 		}
 	}()
 	rctx := resolve.NewContext(context.Background())
-	res := resolve.NewResolvable(nil, resolve.ResolvableOptions{})
+	res := resolve.NewResolvable(nil, resolvableOptions(p.shape.Opt))
 	if err := res.Init(rctx, payload, p.resp.Info.OperationType); err != nil {
 		r.Err = fmt.Errorf("Init: %w", err)
 		return
@@ -254,7 +268,17 @@ func (b *binding) renderFull(p *planned, payload []byte) (r rendered) {
 	// narrow seam without any: both must give the same bytes
 	rctx.RenameTypeNames = []resolve.RenameTypeName{{From: []byte("NoSuchType"), To: []byte("Renamed")}}
 	var buf bytes.Buffer
-	if _, err := b.resolver.ResolveGraphQLResponse(rctx, p.resp, nil, &buf); err != nil {
+	resolver := b.resolver
+	if p.shape.Opt != "" {
+		if b.optRes == nil {
+			b.optRes = map[string]*resolve.Resolver{}
+		}
+		if b.optRes[p.shape.Opt] == nil {
+			b.optRes[p.shape.Opt] = resolve.New(b.ctx, resolve.ResolverOptions{MaxConcurrency: 4, ResolvableOptions: resolvableOptions(p.shape.Opt)})
+		}
+		resolver = b.optRes[p.shape.Opt]
+	}
+	if _, err := resolver.ResolveGraphQLResponse(rctx, p.resp, nil, &buf); err != nil {
 		r.Err = err
 	}
 	r.Out = buf.Bytes()
